@@ -93,11 +93,13 @@ fn mutate(tts: &[TokenTree], in_attr: bool, out: &mut Vec<Vec<TokenTree>>) {
     }
 }
 
-fn run(src: &str) -> Option<String> {
+// Some(("PANIC", message)) or Some(("MALFORMED", parser message)) or None
+fn run(src: &str) -> Option<(&'static str, String)> {
     let node: syn::DeriveInput = match syn::parse_str(src) { Ok(n) => n, Err(_) => return None };
-    match panic::catch_unwind(|| o2o_impl::expand::derive(&node).map(|_| ()).map_err(|_| ())) {
-        Ok(_) => None,
-        Err(p) => Some(if let Some(s) = p.downcast_ref::<String>() { s.clone() } else if let Some(s) = p.downcast_ref::<&str>() { s.to_string() } else { "?".into() }),
+    match panic::catch_unwind(|| o2o_impl::expand::derive(&node).map(|t| t.to_string()).map_err(|_| ())) {
+        Ok(Ok(out)) => match syn::parse_str::<syn::File>(&out) { Ok(_) => None, Err(e) => Some(("MALFORMED", e.to_string())) },
+        Ok(Err(_)) => None,
+        Err(p) => Some(("PANIC", if let Some(s) = p.downcast_ref::<String>() { s.clone() } else if let Some(s) = p.downcast_ref::<&str>() { s.to_string() } else { "?".into() })),
     }
 }
 
@@ -107,7 +109,7 @@ fn main() {
     for f in std::env::args().skip(1) { if let Ok(t) = std::fs::read_to_string(&f) { seeds.push(t.replace('\n', " ")); } }
     let mut cases = 0usize;
     let mut seen = std::collections::BTreeSet::new();
-    let mut fails: Vec<(String, String)> = vec![];
+    let mut fails: Vec<(&'static str, String, String)> = vec![];
     for s in &seeds {
         let ts: TokenStream = match s.parse() { Ok(t) => t, Err(_) => continue };
         let tts: Vec<TokenTree> = ts.into_iter().collect();
@@ -117,9 +119,9 @@ fn main() {
             let text = m.into_iter().collect::<TokenStream>().to_string();
             if !seen.insert(text.clone()) { continue; }
             cases += 1;
-            if let Some(msg) = run(&text) { fails.push((text, msg)); }
+            if let Some((k, msg)) = run(&text) { fails.push((k, text, msg)); }
         }
     }
-    println!("{{\"suite\":\"c16\",\"cases\":{},\"seeds\":{},\"failures\":{}}}", cases, seeds.len(), fails.len());
-    for (t, m) in fails { println!("PANIC\t{}\t{}", t, m.replace('\n', " ").chars().take(200).collect::<String>()); }
+    println!("{{\"suite\":\"c16\",\"cases\":{},\"seeds\":{},\"failures\":{},\"malformed\":{}}}", cases, seeds.len(), fails.iter().filter(|f| f.0 == "PANIC").count(), fails.iter().filter(|f| f.0 == "MALFORMED").count());
+    for (k, t, m) in fails { println!("{}\t{}\t{}", k, t, m.replace('\n', " ").chars().take(200).collect::<String>()); }
 }
